@@ -27,7 +27,7 @@ impl Out {
 
 fn main() {
     let args: Vec<String> = std::env::args().collect();
-    std::panic::set_hook(Box::new(|_| {}));
+    std::panic::set_hook(Box::new(|i| { if std::env::var("VERIF_DEBUG").is_ok() { eprintln!("panic: {}", i); } }));
     let cmd = args.get(1).map(|s| s.as_str()).unwrap_or("");
     let mut out = Out { lines: vec![] };
     match cmd {
